@@ -98,6 +98,23 @@ def rule_guard(ctx):
     main_cls = cls_of['_main_lock']
     ctx.ob('C08.guard', f'{m.name}:lock-classes', cls_of.get('_tick_cond') not in (None, main_cls),
            f'lock classes: {cls_of}', None, m, nontrivial=False)
+    # every lock attribute is bound to a real threading primitive (or to the main lock): the frozen forms of today's tree
+    LOCK_VALUES = {'_main_lock': {'threading.RLock()', 'threading.Lock()'},
+                   '_sched_cond': {'threading.Condition(_libsc3.main._main_lock)', 'None'},
+                   '_tick_cond': {'threading.Condition()'},
+                   '_sched_lock': {'_libsc3.main._main_lock'},
+                   '_state_lock': {'_libsc3.main._main_lock'}}
+    k = 0
+    for fi in ctx.repo.functions.values():
+        for x in walk_local(fi.node):
+            if isinstance(x, ast.Assign):
+                for t in x.targets:
+                    if isinstance(t, ast.Attribute) and t.attr in LOCK_VALUES:
+                        k += 1
+                        ctx.ob('C08.guard', f'{fi.fq}:{norm(x)}:real-lock', norm(x.value) in LOCK_VALUES[t.attr],
+                               f'{norm(x)}: a lock attribute must be one of {sorted(LOCK_VALUES[t.attr])}; a no-op or private lock lets clock '
+                               f'threads and schedulers run unsynchronised', x, fi.module)
+    ctx.require(k >= 6, 'C08.guard', f'only {k} lock bindings found')
     resolve = make_resolver(ctx)
     roots = set()
     for f in funcs:
@@ -476,6 +493,8 @@ def run(ctx):
 
 
 MUTANTS = [
+    dict(rule='C08.guard', name='main lock replaced by a no-op context in one mode', file='sc3/base/main.py',
+         old="        cls._clock_scheduler = clk.ClockScheduler()", new="        cls._clock_scheduler = clk.ClockScheduler()\n        cls._main_lock = contextlib.nullcontext()"),
     dict(rule='C08.guard', name='sched reads the base time before taking the lock (seed C08-c)', file='sc3/base/clock.py',
          old="        item._clock = cls\n        if cls.mode == _libsc3.main.NRT_MODE:\n            seconds = _libsc3.main.current_tt._seconds\n            seconds += delta\n            if seconds == float('inf'):\n                return\n            ClockTask(seconds, cls, item, _libsc3.main._clock_scheduler)\n        else:\n            with cls._sched_cond:\n                seconds = _libsc3.main.current_tt._seconds\n                seconds += delta\n                if seconds == float('inf'):\n                    return\n                cls._sched_add(seconds, item)",
          new="        item._clock = cls\n        seconds = _libsc3.main.current_tt._seconds\n        seconds += delta\n        if seconds == float('inf'):\n            return\n        if cls.mode == _libsc3.main.NRT_MODE:\n            ClockTask(seconds, cls, item, _libsc3.main._clock_scheduler)\n        else:\n            with cls._sched_cond:\n                cls._sched_add(seconds, item)"),
